@@ -3,6 +3,7 @@
 package ingest
 
 import (
+	"bytes"
 	"context"
 	"database/sql"
 	"encoding/hex"
@@ -19,6 +20,7 @@ import (
 	"time"
 	"unicode/utf8"
 
+	"github.com/Basekick-Labs/msgpack/v6"
 	"github.com/basekick-labs/arc/internal/config"
 	"github.com/basekick-labs/arc/internal/storage"
 	"github.com/basekick-labs/arc/internal/verifkit"
@@ -291,10 +293,14 @@ func c02Flushable(us []c02Unit) bool {
 			return false
 		}
 		if u.batch != nil {
+			lower := map[string]bool{}
 			for k := range u.batch.Data {
-				if k == "" || !utf8.ValidString(k) {
+				// "" crashes getSchema (C04); DuckDB, the reader used here, renames
+				// columns that differ only in letter case depending on file order
+				if k == "" || !utf8.ValidString(k) || lower[strings.ToLower(k)] {
 					return false
 				}
+				lower[strings.ToLower(k)] = true
 			}
 		}
 		if u.rec != nil {
@@ -388,9 +394,72 @@ func (e *c02Env) flushCompare(t *rapid.T, data []byte, ignoreTime bool) {
 	}
 }
 
-func c02RootCause(m *c02Meta, detail string) string {
+// c02ArrayThenNonArrayDup reports whether the payload is a top-level map whose
+// "columns" map repeats a key, first with an array value and later with a
+// non-array value (the exact shape of finding C02-duplicate-column-nonarray).
+func c02ArrayThenNonArrayDup(data []byte) bool {
+	dec := msgpack.NewDecoder(bytes.NewReader(data))
+	c, err := dec.PeekCode()
+	if err != nil || !isMapCode(c) {
+		return false
+	}
+	n, err := dec.DecodeMapLen()
+	if err != nil {
+		return false
+	}
+	for i := 0; i < n; i++ {
+		kc, err := dec.PeekCode()
+		if err != nil || !isStrCode(kc) {
+			return false
+		}
+		key, err := dec.DecodeString()
+		if err != nil {
+			return false
+		}
+		vc, err := dec.PeekCode()
+		if err != nil {
+			return false
+		}
+		if key != "columns" || !isMapCode(vc) {
+			if dec.Skip() != nil {
+				return false
+			}
+			continue
+		}
+		nc, err := dec.DecodeMapLen()
+		if err != nil {
+			return false
+		}
+		seenArray := map[string]bool{}
+		for j := 0; j < nc; j++ {
+			kc, err := dec.PeekCode()
+			if err != nil || !isStrCode(kc) {
+				return false
+			}
+			name, err := dec.DecodeString()
+			if err != nil {
+				return false
+			}
+			vc, err := dec.PeekCode()
+			if err != nil {
+				return false
+			}
+			if isArrayCode(vc) {
+				seenArray[name] = true
+			} else if seenArray[name] {
+				return true
+			}
+			if dec.Skip() != nil {
+				return false
+			}
+		}
+	}
+	return false
+}
+
+func c02RootCause(m *c02Meta, data []byte) string {
 	switch {
-	case m.DupColumn && m.NonArray:
+	case c02ArrayThenNonArrayDup(data):
 		return "duplicate-column-nonarray"
 	default:
 		return "decode-divergence"
@@ -413,6 +482,10 @@ func (e *c02Env) check(t *rapid.T, data []byte, m *c02Meta, doFlush bool) {
 		verifkit.Class("mutation:" + m.Mutation)
 	}
 	hx := hex.EncodeToString(data)
+	if verifkit.Excluded(kfC02DupColNonArray) && c02ArrayThenNonArrayDup(data) {
+		verifkit.CountExcluded(kfC02DupColNonArray)
+		return
+	}
 	if pT != "" || pG != "" {
 		if (pT != "") != (pG != "") {
 			t.Fatalf("VERIF-FAIL class=C02/panic-mismatch payload=%s typed panic=%q generic panic=%q", hx, pT, pG)
@@ -440,7 +513,7 @@ func (e *c02Env) check(t *rapid.T, data []byte, m *c02Meta, doFlush bool) {
 		return
 	}
 	if (errT == nil) != (errG == nil) {
-		t.Fatalf("VERIF-FAIL class=C02/%s decode accept mismatch payload=%s typed err=%v generic err=%v meta=%+v", c02RootCause(m, ""), hx, errT, errG, *m)
+		t.Fatalf("VERIF-FAIL class=C02/%s decode accept mismatch payload=%s typed err=%v generic err=%v meta=%+v", c02RootCause(m, data), hx, errT, errG, *m)
 	}
 	if errT != nil {
 		verifkit.Class("decode-rejected")
@@ -449,10 +522,10 @@ func (e *c02Env) check(t *rapid.T, data []byte, m *c02Meta, doFlush bool) {
 	generated := false
 	ut, ug := e.units(resT), e.units(resG)
 	if c02Accepted(ut) != c02Accepted(ug) {
-		t.Fatalf("VERIF-FAIL class=C02/%s write accept mismatch payload=%s typed=%v generic=%v meta=%+v", c02RootCause(m, ""), hx, c02Accepted(ut), c02Accepted(ug), *m)
+		t.Fatalf("VERIF-FAIL class=C02/%s write accept mismatch payload=%s typed=%v generic=%v meta=%+v", c02RootCause(m, data), hx, c02Accepted(ut), c02Accepted(ug), *m)
 	}
 	if d := c02CmpUnits(ut, ug, br, &generated); d != "" {
-		t.Fatalf("VERIF-FAIL class=C02/%s payload=%s: %s meta=%+v", c02RootCause(m, d), hx, d, *m)
+		t.Fatalf("VERIF-FAIL class=C02/%s payload=%s: %s meta=%+v", c02RootCause(m, data), hx, d, *m)
 	}
 	if !c02Accepted(ut) {
 		verifkit.Class("write-rejected")
@@ -480,15 +553,37 @@ func TestVerifKF_C02_skipped_value_undecodable(t *testing.T) {
 		fmt.Sprintf("typed on: err=%v; typed off: err=%v", errT, errG))
 }
 
+func TestVerifKF_C02_duplicate_column_nonarray(t *testing.T) {
+	// {"m":"cpu","columns":{"time":[1700000000],"a":[1],"a":5}}
+	data, _ := hex.DecodeString("82a16da3637075a7636f6c756d6e7383a474696d6591ce6553f100a1619101a16105")
+	dT, dG := NewMessagePackDecoder(zerolog.Nop()), NewMessagePackDecoder(zerolog.Nop())
+	dT.SetTypedDecodeEnabled(true)
+	rT, errT := dT.Decode(data)
+	rG, errG := dG.Decode(data)
+	rep := false
+	what := fmt.Sprintf("errT=%v errG=%v", errT, errG)
+	if errT == nil && errG == nil {
+		lt, lg := rT.([]interface{}), rG.([]interface{})
+		if len(lt) == 1 && len(lg) == 1 {
+			tr, ok1 := lt[0].(*TypedColumnarRecord)
+			gr, ok2 := lg[0].(*models.ColumnarRecord)
+			if ok1 && ok2 {
+				_, tHas := tr.Batch.Data["a"]
+				_, gHas := gr.Columns["a"]
+				rep = tHas && !gHas
+				what = fmt.Sprintf("typed on: column a stored=%v; typed off: column a stored=%v", tHas, gHas)
+			}
+		}
+	}
+	verifkit.KnownFinding(kfC02DupColNonArray, rep, what)
+}
+
 func TestVerifC02_Differential(t *testing.T) {
 	e := newC02Env(t)
 	rapid.Check(t, func(t *rapid.T) {
-		data, m := c02GenPayload(t)
-		if verifkit.Excluded(kfC02DupColNonArray) && m.DupColumn && m.NonArray {
-			verifkit.CountExcluded(kfC02DupColNonArray)
-			t.Skip("excluded: duplicate column key with a non-array value")
-		}
-		pct := verifkit.Scale(20, 35)
+		exDup, exExt := verifkit.Excluded(kfC02DupColNonArray), verifkit.Excluded(kfC02SkippedValue)
+		data, m := c02GenPayload(t, exDup, exExt)
+		pct := verifkit.Scale(8, 20)
 		if v := os.Getenv("VERIF_C02_FLUSHPCT"); v != "" {
 			fmt.Sscan(v, &pct)
 		}
